@@ -1,5 +1,10 @@
 package props
 
+import (
+	"math"
+	"strconv"
+)
+
 // Content classes: what a long field is made of, independent of its length. Length sweeps with one
 // neutral ASCII pattern are blind to code that counts runes instead of bytes (fmt precisions, range over
 // string, strings.Fields), treats '%' as a verb, or special-cases high bytes; these classes are crossed
@@ -35,4 +40,21 @@ func contentOf(class string, n int, excluded string) []byte {
 		b[i] = c
 	}
 	return b
+}
+
+// sharpFloats: float64 values whose shortest decimal form, float32 narrowing, integer conversion or
+// exponent/fixed notation switch differ from their neighbours'. Spelt with the shortest round-trip
+// form, which parseF (strconv.ParseFloat) reads back exactly.
+func sharpFloats() []string {
+	vals := []float64{
+		float64(float32(0.1)), float64(float32(3.1415)), math.MaxFloat32, math.SmallestNonzeroFloat32, -float64(float32(1) / 3), float64(float32(1e10)), float64(float32(16777216.0)),
+		16777217, 9007199254740992, 9007199254740994, 9223372036854775808, 18446744073709551616, 1e15, 1e16, 1e20, 1e21, 1e22, 123456789012345680,
+		0.1 + 0.2, 1.0 / 3, 2.0 / 3, math.Pi, -math.E, math.Nextafter(1, 2), math.Nextafter(1, 0), 2.2250738585072014e-308, 2.225073858507201e-308,
+		100, 1e6, 1e-4, 0.00011, 1e-5, 1e-7, 12345.678, 0.5, 0.25, 255.5, 65535.5, -1e-300, 4.9e-324, 1.7976931348623157e308,
+	}
+	out := make([]string, len(vals))
+	for i, v := range vals {
+		out[i] = strconv.FormatFloat(v, 'g', -1, 64)
+	}
+	return out
 }
